@@ -457,7 +457,14 @@ func (g *bundleGen) cmd(s *gScope, depth int) string {
 				args += ", " + strconv.Itoa(1+r.Intn(2))
 			}
 		}
-		return "{for $" + name + " in range(" + args + ")}" + g.block(inner, depth-1) + "{/for}"
+		kw := []string{"for", "for", "foreach"}[r.Intn(3)]
+		out := "{" + kw + " $" + name + " in range(" + args + ")}" + g.block(inner, depth-1)
+		if r.Intn(3) == 0 {
+			// the {ifempty} of a loop over range(…) (soyjs 2e1528d)
+			g.stat("range-ifempty")
+			out += "{ifempty}" + g.block(s, depth-1)
+		}
+		return out + "{/" + kw + "}"
 	case choice == 14 || choice == 15:
 		// let: value or content.  The variable is visible for the rest of the enclosing block.
 		t := scalarTypes[r.Intn(len(scalarTypes))]
